@@ -18,7 +18,10 @@ use sciparse::{
     address::host_addr::HostAddressSizeError,
     dataplane_path::{
         onehop::view::OneHopPathView,
-        standard::{mac::ForwardingKey, types::InfoFieldFlags},
+        standard::{
+            mac::{ForwardingKey, algo::calculate_hop_mac},
+            types::InfoFieldFlags,
+        },
     },
     identifier::isd_asn::IsdAsn,
     packet::view::ScionRawPacketView,
@@ -133,14 +136,48 @@ impl OneHopRoutingLogic {
     pub fn handle_one_hop_path_egress(
         _local_as: IsdAsn,
         path: &mut OneHopPathView,
-        _now: ScionNetworkTime,
-        _forwarding_key: &ForwardingKey,
-        _interface_link_type_lookup: &impl Fn(u16) -> Option<AsRoutingInterfaceState>,
-        _ignore_macs: bool,
+        now: ScionNetworkTime,
+        forwarding_key: &ForwardingKey,
+        interface_link_type_lookup: &impl Fn(u16) -> Option<AsRoutingInterfaceState>,
+        ignore_macs: bool,
     ) -> Result<AsRoutingAction, OneHopRoutingError> {
-        // TODO: We skip all non required checks at the moment, as well as SCMP handling and
-        // interface down handling
+        // TODO: SCMP handling is skipped at the moment, invalid packets are dropped
         let is_construction_dir = path.info_field().flags().contains(InfoFieldFlags::CONS_DIR);
+
+        // CHECK: the first hop field must be unexpired and authenticated by this AS
+        {
+            let info_field = path.info_field();
+            let [hf1, _] = path.hop_fields();
+
+            if hf1.expiry_timestamp(info_field) < now.timestamp_secs() {
+                return Err(OneHopRoutingError::HopFieldExpired);
+            }
+
+            if !ignore_macs {
+                let expected_mac = calculate_hop_mac(
+                    info_field.segment_id(),
+                    info_field.timestamp(),
+                    hf1.exp_time(),
+                    hf1.cons_ingress(),
+                    hf1.cons_egress(),
+                    forwarding_key,
+                );
+
+                if hf1.mac().0 != expected_mac {
+                    return Err(OneHopRoutingError::InvalidMac);
+                }
+            }
+
+            // CHECK: the egress interface must exist and its link must be up
+            let egress = hf1.cons_egress();
+            match (interface_link_type_lookup)(egress) {
+                None => return Err(OneHopRoutingError::UnknownEgressInterface(egress)),
+                Some(interface) if !interface.is_up => {
+                    return Err(OneHopRoutingError::EgressInterfaceDown(egress));
+                }
+                Some(_) => {}
+            }
+        }
 
         // UPDATE: Segment ID if we are in construction direction
         if is_construction_dir {
@@ -184,6 +221,22 @@ pub enum OneHopRoutingError {
     /// The packet's destination address is invalid or malformed
     #[error("the packet's destination address is invalid or malformed ({0})")]
     InvalidDstAddress(HostAddressSizeError),
+
+    /// The first hop field of a packet leaving the AS has expired
+    #[error("one-hop path hop field has expired")]
+    HopFieldExpired,
+
+    /// The first hop field of a packet leaving the AS was not authenticated by this AS
+    #[error("one-hop path hop field has an invalid MAC")]
+    InvalidMac,
+
+    /// The first hop field names an egress interface this AS does not have
+    #[error("one-hop path uses unknown egress interface {0}")]
+    UnknownEgressInterface(u16),
+
+    /// The link of the egress interface is down
+    #[error("one-hop path egress interface {0} is down")]
+    EgressInterfaceDown(u16),
 }
 
 impl OneHopRoutingError {
@@ -194,6 +247,10 @@ impl OneHopRoutingError {
             Self::AdvanceFailed => None,
             Self::EmptyHopFieldInNonConstructionDirection => None,
             Self::InvalidDstAddress(_) => None,
+            Self::HopFieldExpired => None,
+            Self::InvalidMac => None,
+            Self::UnknownEgressInterface(_) => None,
+            Self::EgressInterfaceDown(_) => None,
         }
     }
 }
